@@ -98,7 +98,9 @@ F_Leaves ==
     [] Family = "calls"  -> Ints({1}) \cup {L(NNil, "nil"), Mem("I"), Mem("P")}
     [] Family = "inlit"  -> Ints({1, 2, 300}) \cup Strs({"a"}) \cup {Mem("I64"), Mem("F"), Mem("K"), Mem("Big"), Mem("U8")}
     [] Family = "ovlt"   -> {Mem("I"), Mem("F")}             \* several overloaded occurrences of different operand types
-    [] Family = "nest2"  -> Ints({1}) \cup Strs({"a"}) \cup {Mem("Ss"), Mem("Xs"), L(NBool(TRUE), "bool")}   \* nested closures over different element types
+    [] Family = "nest2"  -> Ints({1}) \cup Strs({"a"}) \cup {Mem("Ss"), Mem("Xs"), L(NBool(TRUE), "bool")}
+    \* operations on an operand whose type is known at run time only
+    [] Family = "dyn"    -> Ints({0, 1}) \cup Strs({"a"}) \cup {Mem("Any"), Mem("Xs"), L(NBool(TRUE), "bool")}   \* nested closures over different element types
     [] Family = "cexpr"  -> Ints({1}) \cup Strs({"1", "a"}) \cup {L(NFloat("1.0", 1, 0), "float64"), Mem("I")}
     [] Family = "rng"    -> Ints({1, 3}) \cup {Mem("I"), Mem("J")}
     [] Family = "order"  -> Ints({0, 1, 2}) \cup {Mem("Xs"), Mem("I"), Mem("F"), Mem("S"), Mem("I64")}
@@ -115,6 +117,7 @@ F_UnOps ==
     [] Family = "logic" -> {"not", "!"}
     [] Family = "mixed" -> {"-", "not"}
     [] Family = "builtin" -> {"not"}
+    [] Family = "dyn" -> {"-", "not"}
     [] OTHER -> {}
 
 F_BinOps ==
@@ -133,6 +136,7 @@ F_BinOps ==
     [] Family = "nest"   -> {">"}
     [] Family = "ovlt"   -> {"+", "*"}
     [] Family = "nest2"  -> {">", "==", "and"}
+    [] Family = "dyn"    -> {"+", "==", "<", "and", "in", "matches", ".."}
     [] Family = "order"  -> {"in", "not in", ".."}
     [] Family = "laws"   -> {">", "==", "%", "/", "and", "in", ".."}
     [] Family = "ovl"    -> {"+", "*", "==", ">"}
@@ -177,20 +181,22 @@ F_Builtins ==
     [] Family = "laws" -> {"all", "any"}
     [] Family = "nest" -> {"all", "any", "one", "count", "map"}
     [] Family = "nest2" -> {"all", "any"}
+    [] Family = "dyn" -> AllBuiltins
     [] Family = "ovl" -> {"map", "filter", "all"}
     [] OTHER -> {}
 
-F_UseLen  == Family \in {"string", "coll", "builtin", "mixed", "alloc", "oversize", "inlit", "rng", "nest"}
+F_UseLen  == Family \in {"string", "coll", "builtin", "mixed", "alloc", "oversize", "inlit", "rng", "nest", "dyn"}
+F_AnyColl == Family = "dyn"
 F_UseCond == Family \in {"logic", "mixed", "builtin", "oversize", "ovl", "ovlb"}
-F_UseIdx  == Family \in {"coll", "access", "string", "mixed", "builtin", "ovl", "calls", "rng"}
+F_UseIdx  == Family \in {"coll", "access", "string", "mixed", "builtin", "ovl", "calls", "rng", "dyn"}
 F_SliceShapes == CASE Family \in {"coll", "string"} -> {"ft", "f", "t", "n"} [] Family = "mixed" -> {"f", "ft"}
                    [] Family = "laws" -> {"f"} [] Family = "ovl" -> {"f"} [] Family = "ovlb" -> {"f", "t"}
-                   [] Family = "order" -> {"ft", "f", "t"} [] OTHER -> {}
+                   [] Family = "order" -> {"ft", "f", "t"} [] Family = "dyn" -> {"f", "ft"} [] OTHER -> {}
 F_ArrLens == CASE Family \in {"coll", "mixed", "alloc"} -> {0, 1, 2} [] Family \in {"ovl", "ovlb"} -> {1} [] Family \in {"builtin", "calls"} -> {2}
                [] Family = "cexpr" -> {1, 2}
                [] Family = "inlit" -> {1, 3} [] Family = "ovconst" -> {3} [] OTHER -> {}
 F_MapLens == CASE Family = "coll" -> {0, 1, 2} [] Family \in {"mixed", "alloc", "ovl"} -> {1} [] OTHER -> {}
-F_ElemLeaves == Family \in {"builtin", "mixed", "alloc", "oversize", "laws", "ovl", "nest", "nest2"}
+F_ElemLeaves == Family \in {"builtin", "mixed", "alloc", "oversize", "laws", "ovl", "nest", "nest2", "dyn"}
 F_OrderGuard == Family # "order"
 
 (* Constructs whose outcome on the pinned tree is a catalogued deviation     *)
@@ -226,6 +232,7 @@ Spec == Init /\ [][Next]_gvars
 (* emitted next to the reference outcome when the two differ, so that a      *)
 (* failing real execution is attributed to a known finding mechanically.     *)
 F_Devs == CASE Family \in {"coll", "mixed"} -> {"Dev_InArrayStringUntyped", "Dev_SliceToBeforeFrom"}
+            [] Family \in {"ovl", "dyn"} -> {"Dev_BuiltinOverString", "Dev_InArrayStringUntyped", "Dev_SliceToBeforeFrom"}
             [] Family = "inlit" -> {"Dev_InArrayStringUntyped"}
             [] Family = "string" -> {"Dev_SliceToBeforeFrom"}
             [] Family = "order" -> {"Dev_SliceToBeforeFrom", "Dev_InRangeRewrite"}
